@@ -47,8 +47,9 @@ impl CmapSubtable {
             end_code.push(end as u32 as u16);
             if let Some(delta) = segment.id_delta {
                 // "The idDelta arithmetic is modulo 65536":
+                // (reinterpret the value modulo 65536 as a signed 16-bit delta)
                 let delta = i16::try_from(delta)
-                    .unwrap_or_else(|_| delta.rem_euclid(0x10000).try_into().unwrap());
+                    .unwrap_or_else(|_| delta.rem_euclid(0x10000) as u16 as i16);
                 id_deltas.push(delta);
                 id_range_offsets.push(0u16);
             } else {
